@@ -166,7 +166,10 @@ class GenomicToGene(Contract):
                   z3.Or(z3.Not(z3.And(gn.start <= x, x < gn.end)), z3.Not(strand_pm(gn.strand))))
 
     def summary(self, I, args, kwargs):
-        anno, x, gid = args[0], args[1], args[2]
+        anno = args[0]
+        rest = list(args[1:])
+        x = rest[0] if rest else kwargs['index']
+        gid = rest[1] if len(rest) > 1 else kwargs['gene']
         gn = find_gene(anno, gid)
         e = I.e
         if not e.branch(z3.And(gn.start <= x, x < gn.end), 'g2gene:inside'):
@@ -196,7 +199,10 @@ class GeneToGenomic(Contract):
         I.e.prove('gene2g/raise/iff-unstranded', z3.Not(strand_pm(st.gn.strand)))
 
     def summary(self, I, args, kwargs):
-        anno, i, gid = args[0], args[1], args[2]
+        anno = args[0]
+        rest = list(args[1:])
+        i = rest[0] if rest else kwargs['index']
+        gid = rest[1] if len(rest) > 1 else kwargs['gene']
         gn = find_gene(anno, gid)
         if not I.e.branch(strand_pm(gn.strand), 'gene2g:stranded'):
             I.raise_('ValueError', "Don't know how to handle unstranded gene.")
